@@ -20,7 +20,7 @@ KINDS = {
     "C14": {"post", "lemma", "refines"},
     "C15": {"refines", "shape", "defined", "safe", "pre", "fresh", "frame"},
     "C16": FUNCTIONAL,
-    "C17": {"lemma", "refines", "post"},
+    "C17": {"lemma", "refines", "post", "fresh", "frame"},
     "C18": {"lemma", "refines", "post"},
     "C19": FUNCTIONAL | {"frame"},
 }
